@@ -214,11 +214,11 @@ JLS_API int32_t jls_rd_fsr_f32(struct jls_rd_s * self, uint16_t signal_id, int64
 }
 
 static inline void f32_to_stats(struct jls_statistics_s * stats, const float * data, int64_t count) {
-    stats->k = count;
+    stats->k = isfinite(data[JLS_SUMMARY_FSR_MEAN]) ? count : 0;  // an all-gap entry holds no samples
     stats->mean = data[JLS_SUMMARY_FSR_MEAN];
     stats->min = data[JLS_SUMMARY_FSR_MIN];
     stats->max = data[JLS_SUMMARY_FSR_MAX];
-    if (count > 1) {
+    if (stats->k > 1) {
         stats->s = ((double) data[JLS_SUMMARY_FSR_STD]) * data[JLS_SUMMARY_FSR_STD] * (count - 1);
     } else {
         stats->s = 0.0;
@@ -233,11 +233,11 @@ static inline void stats_to_f64(double * data, struct jls_statistics_s * stats) 
 }
 
 static inline void f64_to_stats(struct jls_statistics_s * stats, const double * data, int64_t count) {
-    stats->k = count;
+    stats->k = isfinite(data[JLS_SUMMARY_FSR_MEAN]) ? count : 0;  // an all-gap entry holds no samples
     stats->mean = data[JLS_SUMMARY_FSR_MEAN];
     stats->min = data[JLS_SUMMARY_FSR_MIN];
     stats->max = data[JLS_SUMMARY_FSR_MAX];
-    if (count > 1) {
+    if (stats->k > 1) {
         stats->s = ((double) data[JLS_SUMMARY_FSR_STD]) * data[JLS_SUMMARY_FSR_STD] * (count - 1);
     } else {
         stats->s = 0.0;
